@@ -120,3 +120,12 @@ Theorem C14_no_flush_below_threshold_partial : forall k c i b c',
   segs c' = segs c.
 Proof. exact no_flush_below_threshold. Qed.
 Print Assumptions C14_no_flush_below_threshold_partial.
+
+(* non-termination witness (closed, bounded): one partition, a table of one full segment; after 200 scan calls
+   the statement is still running and the table has grown 50-fold.  The unbounded statement
+   (forall n, the run of n scan calls exists and is not complete) is not proved. *)
+Theorem C14_self_insert_growth_witness_partial :
+  exists c, run kw (self_insert [[1%N; 2%N]] 1) (repeat (LPipe 0) 200) = Some c /\ complete c = false /\
+            100 <= length (all_rows c).
+Proof. exact self_insert_growth_witness_proof. Qed.
+Print Assumptions C14_self_insert_growth_witness_partial.
